@@ -414,8 +414,10 @@ def _np_binary_select(pick):
     return m
 
 
-model(np.minimum)(_np_binary_select(lambda s, t: z3.If(s <= t, s, t)))
-model(np.maximum)(_np_binary_select(lambda s, t: z3.If(s >= t, s, t)))
+_npminimum = _np_binary_select(lambda s, t: z3.If(s <= t, s, t))
+_npmaximum = _np_binary_select(lambda s, t: z3.If(s >= t, s, t))
+model(np.minimum)(_npminimum)
+model(np.maximum)(_npmaximum)
 
 
 @model(np.mod, np.remainder)
@@ -1523,3 +1525,77 @@ def _cumsum(I, a, k):
     A.note_fact(z3.Implies(n >= 1, f(z3.IntVal(0)) == el(z3.IntVal(0))),
                 z3.ForAll([kq], z3.Implies(z3.And(kq >= 1, kq < n), f(kq) == f(kq - 1) + el(kq)), patterns=[f(kq)]))
     return SArr(dt, (x.shape[0],), lambda idx: f(idx[0]))
+
+
+@model(np.percentile)
+def _percentile(I, a, k):
+    """A-NP-SPEC percentile: an opaque order statistic per slice along `axis` (one value for the whole array when axis is None), lying between the
+    slice's minimum and maximum is NOT stated; only which elements it is taken over is modelled (reduce_log)"""
+    if not _anysym(a, k):
+        return NotImplemented
+    x = A.as_sarr(a[0])
+    axis = k.get("axis", a[2] if len(a) > 2 else None)
+    dt = np.dtype("float64") if x.dtype.kind in "biu" else x.dtype
+    if axis is None and x.ndim > 1:
+        flat = A.reshape(x, (-1,))
+        return _unbox(A.reduce_axis(flat, 0, "percentile", dt, None))
+    return _unbox(A.reduce_axis(x, axis if axis is not None else 0, "percentile", dt, None))
+
+
+@model(np.moveaxis)
+def _moveaxis(I, a, k):
+    if not _anysym(a, k):
+        return NotImplemented
+    x = A.as_sarr(a[0])
+    src = k.get("source", a[1] if len(a) > 1 else None)
+    dst = k.get("destination", a[2] if len(a) > 2 else None)
+    if not isinstance(src, (int, np.integer)) or not isinstance(dst, (int, np.integer)):
+        raise Unsupported("moveaxis with several axes")
+    nd = x.ndim
+    src, dst = int(src) % nd, int(dst) % nd
+    order = [q for q in range(nd) if q != src]
+    order.insert(dst, src)
+    return A.transpose(x, tuple(order))
+
+
+@model(np.swapaxes)
+def _swapaxes(I, a, k):
+    if not _anysym(a, k):
+        return NotImplemented
+    x = A.as_sarr(a[0])
+    nd = x.ndim
+    p, q = int(a[1]) % nd, int(a[2]) % nd
+    order = list(range(nd))
+    order[p], order[q] = order[q], order[p]
+    return A.transpose(x, tuple(order))
+
+
+@model(np.clip)
+def _clip(I, a, k):
+    if not _anysym(a, k):
+        return NotImplemented
+    x = A.as_sarr(a[0])
+    lo = k.get("a_min", a[1] if len(a) > 1 else None)
+    hi = k.get("a_max", a[2] if len(a) > 2 else None)
+    out = x
+    if lo is not None:
+        out = _npmaximum(I, [out, lo], {})
+    if hi is not None:
+        out = _npminimum(I, [out, hi], {})
+    return out
+
+
+@model(np.count_nonzero)
+def _count_nonzero(I, a, k):
+    """A-NP-SPEC count_nonzero: an opaque count in [0, n] per slice (integer); which elements are counted is logged"""
+    if not _anysym(a, k):
+        return NotImplemented
+    x = A.as_sarr(a[0])
+    axis = k.get("axis", a[1] if len(a) > 1 else None)
+    nz = x if x.dtype.kind == "b" else ops.compare("NotEq", x, 0)
+
+    def ax(along, n, r):
+        return [r >= 0, r <= n]
+    if axis is None and x.ndim > 1:
+        return _unbox(A.reduce_axis(A.reshape(nz, (-1,)), 0, "count_nonzero", np.dtype("int64"), ax))
+    return _unbox(A.reduce_axis(nz, axis if axis is not None else 0, "count_nonzero", np.dtype("int64"), ax))
